@@ -327,7 +327,7 @@ Section Stream.
       destruct (samples_ok_chans bps channels b Hbps Hso) as [Hbound Hrange].
       assert (Hnum : fi < 2 ^ 36) by (change (2 ^ 31) with 2147483648 in Hfi; change (2 ^ 36) with 68719476736; lia).
       destruct (frame_end_to_end_full ent qlpc cfg rate channels bps fi fi b f si n Ef Hmp Hbps Hrate Hch Hnum Hn1 Hn Hblk Hbound Hrange Hsr Hsb)
-        as (ctag & Hct & Hpre & Hwfb & Hread).
+        as (ctag & Hct & Hpre & _ & Hwfb & Hread).
       destruct (frame_ops_shape f Hpre Hwfb) as (body & Eo & Hbody).
       destruct (frame_ops_wf body Hbody) as [Hwf _].
       destruct (pack_total KU8 _ Hwf) as [fb Epk].
